@@ -6,7 +6,9 @@ package exec
 // Every model here is part of the trusted base and is listed in the evidence files.
 
 import (
+	"encoding/hex"
 	"fmt"
+	"strconv"
 	"go/types"
 	"strings"
 
@@ -95,6 +97,21 @@ func init() {
 			m.yield()
 			return nil
 		},
+		"vsymTier": func(m *Machine, _ *frame, _ *ssa.Function, a []value) value {
+			return m.tt.Const(64, uint64(m.world.Tier))
+		},
+		"vsymRegion": func(m *Machine, _ *frame, _ *ssa.Function, a []value) value {
+			name, _ := concreteString(a[0])
+			if !contains(m.path.Regions, name) {
+				m.path.Regions = append(m.path.Regions, name)
+			}
+			return nil
+		},
+		"vsymExpect": func(m *Machine, _ *frame, _ *ssa.Function, a []value) value {
+			name, _ := concreteString(a[0])
+			m.path.Expected = append(m.path.Expected, name)
+			return nil
+		},
 		"vsymNowNS": func(m *Machine, _ *frame, _ *ssa.Function, a []value) value {
 			return m.tt.Const(64, uint64(m.clock))
 		},
@@ -176,13 +193,59 @@ func (m *Machine) opaqueMethod(o opaque, meth *types.Func) *extFunc {
 }
 
 func (m *Machine) observeStr(v value) string {
-	if i, ok := v.(iface); ok {
-		if i.t == nil {
-			return "nil"
-		}
-		return m.observeStr(i.v)
+	i, ok := v.(iface)
+	if !ok {
+		return toStr(v)
 	}
-	return toStr(v)
+	if i.t == nil {
+		return "nil"
+	}
+	switch x := i.v.(type) {
+	case *Term:
+		if !x.IsConst() {
+			return "?"
+		}
+		k := basicKind(i.t)
+		switch {
+		case k.isBool:
+			if x.K != 0 {
+				return "true"
+			}
+			return "false"
+		case k.float:
+			return "<float>"
+		case k.signed:
+			return strconv.FormatInt(x.SVal(), 10)
+		default:
+			return strconv.FormatUint(x.K, 10)
+		}
+	case string, *symstr:
+		if _, isBasic := i.t.Underlying().(*types.Basic); isBasic {
+			s, ok := concreteString(x)
+			if !ok {
+				return "?"
+			}
+			return "s:" + hex.EncodeToString([]byte(s))
+		}
+	case []value:
+		if st, ok := i.t.Underlying().(*types.Slice); ok {
+			if b, ok := st.Elem().Underlying().(*types.Basic); ok && b.Kind() == types.Uint8 {
+				buf := make([]byte, len(x))
+				for j, e := range x {
+					t := e.(*Term)
+					if !t.IsConst() {
+						return "?"
+					}
+					buf[j] = byte(t.K)
+				}
+				return "b:" + hex.EncodeToString(buf)
+			}
+		}
+	}
+	if m.errMethod(i, "Error", 1) != nil {
+		return "error"
+	}
+	return "<" + i.t.String() + ">"
 }
 
 // aliases reports whether two values (slices, strings, pointers, possibly boxed in interfaces)
